@@ -16,7 +16,7 @@ Inductive lockmode := LRead | LWrite | LMutex | LNone.     (* what the arm acqui
 Definition exclusive (l : lockmode) := match l with LWrite | LMutex => true | _ => false end.
 
 (* per member: for each method index the mode its arm acquires and the user method it calls *)
-Record fmeth := { fm_mode : lockmode; fm_callee : nat }.
+Record fmeth := { fm_mode : lockmode; fm_callee : nat; fm_mut : bool (* the user method takes &mut self *) }.
 Record fmodel := { f_members : list (list fmeth) }.
 
 Record fmsg := { g_id : nat; g_meth : nat; g_args : list V }.
